@@ -18,12 +18,23 @@ REPO = os.environ.get("VERIF_REPO", "/repo")
 TARGET = os.path.join(VERIF, "target")
 AST_BIN = os.path.join(TARGET, "release", "rs2smt-ast")
 NATIVE_BIN = os.environ.get("RS2SMT_NATIVE_BIN") or os.path.join(TARGET, "debug", "rs2smt-native")
-WORK = os.path.join(VERIF, "work", "rs2smt")
+# a run against another tree (VERIF_REPO) gets its own scratch directory, so that it can run next to a run on /repo
+WORK = os.path.join(VERIF, "work", "rs2smt") if os.path.realpath(REPO) == "/repo" else os.path.join(VERIF, "work", "alt", "rs2smt")
+
+# The per-query cap is CPU time (ulimit -t), so that a verdict does not depend on how loaded the box is;
+# the wall-clock cap is 8x that.
+WALL_FACTOR = 8
+
+
+def _cmd(argv, t):
+    import shlex
+    return ["bash", "-c", "ulimit -t %d; exec %s" % (t, " ".join(shlex.quote(a) for a in argv))]
+
 
 SOLVERS = {
-    "z3-new": lambda f, t: ["z3-new", "-T:%d" % t, f],
-    "z3-old": lambda f, t: ["/usr/bin/z3", "-T:%d" % t, f],
-    "cvc5": lambda f, t: ["cvc5", "--tlimit=%d" % (t * 1000), "--produce-models", f],
+    "z3-new": lambda f, t: _cmd(["z3-new", "-T:%d" % (t * WALL_FACTOR), f], t),
+    "z3-old": lambda f, t: _cmd(["/usr/bin/z3", "-T:%d" % (t * WALL_FACTOR), f], t),
+    "cvc5": lambda f, t: _cmd(["cvc5", "--tlimit=%d" % (t * WALL_FACTOR * 1000), "--produce-models", f], t),
 }
 
 
@@ -197,7 +208,7 @@ def run_solver(solver, path, timeout):
     cmd = SOLVERS[solver](path, timeout)
     t0 = time.time()
     try:
-        p = subprocess.run(cmd, capture_output=True, text=True, timeout=timeout + 15)
+        p = subprocess.run(cmd, capture_output=True, text=True, timeout=timeout * WALL_FACTOR + 15)
         out = p.stdout + p.stderr
     except subprocess.TimeoutExpired:
         out = "timeout"
@@ -249,7 +260,7 @@ def race(path, timeout, solvers, wait_all=False):
         procs[sname] = (subprocess.Popen(SOLVERS[sname](path, timeout), stdout=of, stderr=subprocess.STDOUT,
                                          start_new_session=True), of)
     results = {}
-    while procs and time.time() - t0 < timeout + 15:
+    while procs and time.time() - t0 < timeout * WALL_FACTOR + 15:
         for sname in list(procs):
             p, of = procs[sname]
             if p.poll() is not None:
